@@ -24,6 +24,7 @@ import py2lean
 from py2lean import Untranslatable, S, V, B, I, find_def
 
 VE = "VE"  # a 1-d array as a Lean `List (Expr N)` (vector kernels: Planar, mixtures)
+ME = "ME"  # a square 2-d array as a Lean `List (List (Expr N))` (TriangularAffine)
 
 PRIMS = {
     "jnp.abs": "abs", "jnp.sign": "sign", "jnp.tanh": "tanh", "jnp.arctanh": "artanh", "jnp.sqrt": "sqrt",
@@ -59,6 +60,10 @@ class VecCode(str):
     """Lean code of type `List (Expr N)` (a 1-d array result)"""
 
 
+class MatCode(str):
+    """Lean code of type `List (List (Expr N))` (a 2-d array result)"""
+
+
 class StructIds:
     """flatten a struct's fields into scalar variable ids (1..) and vector ids (0..)"""
 
@@ -92,6 +97,10 @@ class AstTr:
         self.lets = []  # list of ("S", id, code) | ("M", leanname, type, code)
         self.selfvals = {}
         self.init_mode = init_mode
+        self.mat_field_params = ()  # 2-d fields of `self` passed as parameters `self_<field> : List (List (Expr N))`
+        self.static = {}  # static boolean fields / closure variables fixed by the specialisation (checked against `__init__`)
+        self.guard_args = None  # arguments that `if …: raise` guards may test (static, constructor-time values)
+        self.guards = []
 
     def fresh(self):
         self.next_id += 1
@@ -130,6 +139,9 @@ class AstTr:
             raise Untranslatable(f"unbound {n.id} ({self.name})")
         if isinstance(n, ast.Attribute) and ast.unparse(n) in CONSTS:
             return "num", CONSTS[ast.unparse(n)]
+        if isinstance(n, ast.Attribute) and n.attr == "size" and self.vec_mode and isinstance(n.value, ast.Name) \
+                and self.env.get(n.value.id, (None,))[0] == VE:
+            return S, f"(Vec.sizeE {self.env[n.value.id][1]})"
         if isinstance(n, ast.Attribute):
             if isinstance(n.value, ast.Name) and n.value.id == "self":
                 if self.init_mode:
@@ -140,6 +152,10 @@ class AstTr:
                     return S, f"self_{n.attr}"
                 if n.attr in self.vec_field_params:
                     return VE, f"self_{n.attr}"
+                if n.attr in self.mat_field_params:
+                    return ME, f"self_{n.attr}"
+                if n.attr in self.static:
+                    return "STATIC", self.static[n.attr]
                 if self.ids is None:
                     raise Untranslatable("attribute " + ast.unparse(n))
                 if n.attr in self.ids.scalar:
@@ -155,6 +171,15 @@ class AstTr:
                 if isinstance(n.slice, ast.Constant):
                     return S, f"(Expr.var {self.ids.scalar[f'{c}.{n.slice.value}']})"
                 raise Untranslatable("tuple index")
+            if k == "TUPA":
+                # a tuple ARGUMENT of statically known length (`interval`): its components are expression parameters
+                if isinstance(n.slice, ast.Constant) and isinstance(n.slice.value, int) and 0 <= n.slice.value < len(c):
+                    return S, c[n.slice.value]
+                raise Untranslatable("tuple argument index")
+            if k == VE and self.vec_mode:
+                if isinstance(n.slice, ast.Constant) and isinstance(n.slice.value, int) and not isinstance(n.slice.value, bool) and n.slice.value >= 0:
+                    return S, f"(Vec.getAt {c} {n.slice.value})"
+                raise Untranslatable("array index that is not a static non-negative integer")
             if k == V:
                 ik, ic = self.e(n.slice)
                 if ik == "num":
@@ -179,12 +204,20 @@ class AstTr:
                     return S, f"(Expr.mul {c} {c})"
                 raise Untranslatable("pow")
             if isinstance(n.op, ast.MatMult):
-                return S, f"(Vec.dot {self.ve(n.left)} {self.ve(n.right)})"
+                lk, lc = self.e(n.left)
+                if lk == ME:
+                    return VE, f"(Mat.mulVec {lc} {self.ve(n.right)})"
+                return S, f"(Vec.dot {self.as_ve((lk, lc))} {self.ve(n.right)})"
             return self.binop(type(n.op), self.e(n.left), self.e(n.right))
         if isinstance(n, ast.Compare):
             if len(n.ops) != 1:
                 raise Untranslatable("chained compare")
             return self.compare(type(n.ops[0]), n.left, n.comparators[0])
+        if isinstance(n, ast.IfExp):
+            tk, tc = self.e(n.test)
+            if tk != "STATIC":
+                raise Untranslatable("conditional expression on a non-static test")
+            return self.e(n.body if tc else n.orelse)
         if isinstance(n, ast.Call):
             return self.call(n)
         raise Untranslatable(ast.dump(n)[:80])
@@ -206,6 +239,10 @@ class AstTr:
         op = {ast.Add: "add", ast.Sub: "sub", ast.Mult: "mul", ast.Div: "div"}.get(opty)
         if op is None:
             raise Untranslatable("binop")
+        if a[0] == ME or b[0] == ME:
+            if a[0] == ME and b[0] == ME and op == "add":
+                return ME, f"(Mat.add {a[1]} {b[1]})"
+            raise Untranslatable(f"matrix binop {op} {a[0]} {b[0]}")
         if self.vec_mode and (a[0] in (VE, V) or b[0] in (VE, V)):
             # NumPy broadcasting of 1-d arrays of the same length with scalars
             if a[0] in (VE, V) and b[0] in (VE, V):
@@ -259,7 +296,41 @@ class AstTr:
     def call(self, n):
         fn = ast.unparse(n.func)
         if isinstance(n.func, ast.Attribute) and n.func.attr == "sum" and not n.args and fn not in self.calls:
+            if self.vec_mode:
+                k0, c0 = self.e(n.func.value)
+                if k0 in (VE, V):
+                    return S, f"(Vec.sum {self.as_ve((k0, c0))})"
+                if k0 == "num":
+                    return S, self.num(c0)
+                if k0 == S:
+                    return S, c0
+                raise Untranslatable(".sum() of " + str(k0))
             return self.sc(n.func.value)
+        if fn == "jnp.diag" and self.vec_mode and len(n.args) == 1 and not n.keywords:
+            k0, c0 = self.e(n.args[0])
+            if k0 == ME:
+                return VE, f"(Mat.diag {c0})"
+            return ME, f"(Mat.diagM {self.as_ve((k0, c0))})"
+        if fn == "jnp.tril" and self.vec_mode and len(n.args) == 1:
+            k0, c0 = self.e(n.args[0])
+            kw = {k.arg: k.value for k in n.keywords}
+            if k0 != ME or set(kw) - {"k"}:
+                raise Untranslatable("jnp.tril")
+            kk = self.e(kw["k"]) if "k" in kw else ("num", 0)
+            if kk[0] != "num" or kk[1] != int(kk[1]):
+                raise Untranslatable("jnp.tril with a non-static k")
+            return ME, f"(Mat.tril {c0} ({int(kk[1])}))"
+        if fn == "solve_triangular" and self.vec_mode and len(n.args) == 2:
+            kw = {k.arg: k.value for k in n.keywords}
+            if set(kw) != {"lower"}:
+                raise Untranslatable("solve_triangular: only the `lower` keyword is modelled")
+            lk, lv = self.e(kw["lower"])
+            if lk != "STATIC" or lv is not True:
+                raise Untranslatable("solve_triangular with lower != True is not modelled")
+            k0, c0 = self.e(n.args[0])
+            if k0 != ME:
+                raise Untranslatable("solve_triangular of a non-matrix")
+            return VE, f"(Mat.solveLower {c0} {self.ve(n.args[1])})"
         if fn in ("jnp.sum", "float", "jnp.asarray", "jnp.array"):
             return self.sc(n.args[0])
         if fn == "numpy_util.ensure_arraylike" and len(n.args) == 2 and not n.keywords:
@@ -269,8 +340,30 @@ class AstTr:
         if fn in PRIMS:
             if len(n.args) != 1 or n.keywords:
                 raise Untranslatable(f"primitive {fn} with extra arguments")
+            if self.vec_mode:
+                k0, c0 = self.e(n.args[0])
+                if k0 in (VE, V):  # elementwise on a 1-d array
+                    return VE, f"(Vec.mapE (fun e_ => Expr.prim Prim.{PRIMS[fn]} e_) {self.as_ve((k0, c0))})"
             k, c = self.sc(n.args[0])
             return S, f"(Expr.prim Prim.{PRIMS[fn]} {c})"
+        if fn == "jnp.cumsum" and self.vec_mode and len(n.args) == 1 and not n.keywords:
+            return VE, f"(Vec.cumsum {self.ve(n.args[0])})"
+        if fn == "jnp.pad" and self.vec_mode and len(n.args) == 1:
+            kw = {k.arg: k.value for k in n.keywords}
+            if set(kw) != {"pad_width", "constant_values"} or not (isinstance(kw["pad_width"], ast.Constant) and kw["pad_width"].value == 1):
+                raise Untranslatable("jnp.pad other than pad_width=1 with constant_values")
+            ck, cc = self.e(kw["constant_values"])
+            if ck != "TUPA" or len(cc) != 2:
+                raise Untranslatable("jnp.pad constant_values must be a pair")
+            return VE, f"(Vec.pad1 {self.ve(n.args[0])} {cc[0]} {cc[1]})"
+        if (isinstance(n.func, ast.Attribute) and n.func.attr == "set" and isinstance(n.func.value, ast.Subscript)
+                and isinstance(n.func.value.value, ast.Attribute) and n.func.value.value.attr == "at" and self.vec_mode
+                and len(n.args) == 1 and not n.keywords):
+            # `a.at[i].set(v)` with a static index
+            idx = n.func.value.slice
+            if not (isinstance(idx, ast.Constant) and isinstance(idx.value, int) and not isinstance(idx.value, bool) and idx.value >= 0):
+                raise Untranslatable(".at[i].set with a non-static index")
+            return VE, f"(Vec.setAt {self.ve(n.func.value.value.value)} {idx.value} {self.sc(n.args[0])[1]})"
         if fn in LAX_BIN and len(n.args) == 2 and not n.keywords:
             return self.binop(LAX_BIN[fn], self.e(n.args[0]), self.e(n.args[1]))
         if fn == "lax.neg" and len(n.args) == 1:
@@ -422,8 +515,12 @@ class AstTr:
             ln = f"{name}_{len(self.lets)}"
             self.lets.append(("L", ln, code))
             self.env[name] = (VE, ln)
-        elif kind == "TUP":
-            self.env[name] = ("TUP", code)
+        elif kind in ("TUP", "TUPA"):
+            self.env[name] = (kind, code)
+        elif kind == ME:
+            ln = f"{name}_{len(self.lets)}"
+            self.lets.append(("L2", ln, code))
+            self.env[name] = (ME, ln)
         else:
             raise Untranslatable("bind kind " + str(kind))
 
@@ -469,8 +566,25 @@ class AstTr:
                     k, c = self.e(v)
                     if k in (VE, V) and self.vec_mode:
                         ret.append(VecCode(self.as_ve((k, c))))
+                    elif k == ME:
+                        ret.append(MatCode(c))
                     else:
                         ret.append(self.sc(v)[1])
+                continue
+            if isinstance(st, ast.If) and isinstance(st.test, ast.Name) and self.env.get(st.test.id, (None,))[0] == "STATIC":
+                # `if pad_with_ends:` on a parameter left at its (boolean) default
+                r = self.stmts(st.body if self.env[st.test.id][1] else st.orelse)
+                if r is not None:
+                    ret = r
+                continue
+            if (isinstance(st, ast.If) and not st.orelse and len(st.body) == 1 and isinstance(st.body[0], ast.Raise)
+                    and self.guard_args is not None):
+                # `if <test on arguments>: raise …`: an argument check of a constructor-time (untraced) value; recorded as a
+                # precondition of the generated definition (its negation is a hypothesis of the theorems)
+                names = {x.id for x in ast.walk(st.test) if isinstance(x, ast.Name)}
+                if not names or not names <= set(self.guard_args):
+                    raise Untranslatable("raise-guard on something that is not a declared static argument")
+                self.guards.append(ast.unparse(st.test))
                 continue
             if isinstance(st, ast.If) and self.config:
                 # `if self.<field> == "<value>":` on a static string field fixed by the specialisation
@@ -491,6 +605,10 @@ class AstTr:
 
     def wrap(self, code):
         """wrap a result expression in the recorded scalar lets (innermost last); a 1-d array result element by element"""
+        if isinstance(code, MatCode):
+            if any(l[0] == "S" for l in self.lets):
+                raise Untranslatable("scalar lets around a matrix result")
+            return str(code)
         if isinstance(code, VecCode):
             if not any(l[0] == "S" for l in self.lets):
                 return str(code)
@@ -508,6 +626,8 @@ class AstTr:
                 out += f"  let {l[1]} : Env N → {l[2]} := fun env => {l[3]}\n"
             elif l[0] == "L":
                 out += f"  let {l[1]} : List (Expr N) := {l[2]}\n"
+            elif l[0] == "L2":
+                out += f"  let {l[1]} : List (List (Expr N)) := {l[2]}\n"
         return out
 
 
@@ -524,6 +644,33 @@ open Ad
 variable {N : Type} [Num N]
 
 """
+
+
+def check_static(tree, sp) -> dict:
+    """`static = {"lower": True}`: the class `<C>` of `path = "<C>.<method>…"` annotates the field as `bool`, `__init__` takes an argument
+    of that name whose default is the given value and stores it unchanged (`self.lower = lower`).  The specialisation covers
+    objects built with that value; inside `__init__` the same name is the closure variable."""
+    st = dict(sp.get("static", {}))
+    if not st:
+        return {}
+    cname = sp["path"].split(".")[0]
+    cls = find_def(tree, cname)
+    init = find_def(tree, cname + ".__init__")
+    allargs = init.args.posonlyargs + init.args.args
+    defaults = dict(zip([a.arg for a in allargs][len(allargs) - len(init.args.defaults):], init.args.defaults))
+    defaults.update({a.arg: d for a, d in zip(init.args.kwonlyargs, init.args.kw_defaults) if d is not None})
+    for f, v in st.items():
+        anns = [x for x in cls.body if isinstance(x, ast.AnnAssign) and isinstance(x.target, ast.Name) and x.target.id == f]
+        if len(anns) != 1 or ast.unparse(anns[0].annotation) != "bool":
+            raise Untranslatable(f"{cname}.{f} is not annotated `bool`")
+        if f not in defaults or not (isinstance(defaults[f], ast.Constant) and defaults[f].value is v):
+            raise Untranslatable(f"{cname}.__init__: argument {f} does not default to {v}")
+        stores = [x for x in ast.walk(init) if isinstance(x, ast.Assign) and len(x.targets) == 1 and ast.unparse(x.targets[0]) == f"self.{f}"]
+        if len(stores) != 1 or ast.unparse(stores[0].value) != f:
+            raise Untranslatable(f"{cname}.__init__ does not store {f} unchanged")
+        if any(isinstance(x, (ast.Assign, ast.AugAssign)) and any(isinstance(t, ast.Name) and t.id == f for t in (x.targets if isinstance(x, ast.Assign) else [x.target])) for x in ast.walk(init)):
+            raise Untranslatable(f"{cname}.__init__ rebinds {f}")
+    return st
 
 
 def _default_value(node):
@@ -567,6 +714,18 @@ def generate_ast(repo, specs, header=None, id_base=0) -> dict:
             vec_args = list(sp.get("vec_args", ()))
             for a in vec_args:
                 tr.env[a] = (VE, a)
+            tuple_args = dict(sp.get("tuple_args", {}))
+            for a, ln in tuple_args.items():
+                tr.env[a] = ("TUPA", [f"{a}_{i}" for i in range(ln)])
+            tr.guard_args = sp.get("guard_args")
+            mat_args = list(sp.get("mat_args", ()))
+            for a in mat_args:
+                tr.env[a] = (ME, a)
+            tr.mat_field_params = tuple(sp.get("mat_field_params", ()))
+            tr.static = check_static(ast.parse(src), sp)
+            for a, v in tr.static.items():
+                tr.env.setdefault(a, ("STATIC", v))
+            tr.vec_mode = tr.vec_mode or bool(mat_args or tr.mat_field_params)
             if "args" in sp:
                 argnames = list(sp["args"])
                 for a in argnames:
@@ -596,11 +755,18 @@ def generate_ast(repo, specs, header=None, id_base=0) -> dict:
                 # parameters left at their defaults by the caller
                 pos = fn.args.posonlyargs + fn.args.args
                 defaults = dict(zip([a.arg for a in pos][len(pos) - len(fn.args.defaults):], fn.args.defaults))
+                for a, dflt in zip(fn.args.kwonlyargs, fn.args.kw_defaults):
+                    if dflt is not None:
+                        defaults[a.arg] = dflt
+                pos = pos + fn.args.kwonlyargs
                 for a in pos:
                     if a.arg == "self" or a.arg in tr.env or a.arg in tr.ignore_args or a.arg == sp.get("arg"):
                         continue
                     if a.arg not in defaults:
                         raise Untranslatable(f"parameter {a.arg} has no default and is not an argument")
+                    if isinstance(defaults[a.arg], ast.Constant) and isinstance(defaults[a.arg].value, bool):
+                        tr.env[a.arg] = ("STATIC", defaults[a.arg].value)  # only usable as an `if` test
+                        continue
                     try:
                         tr.env[a.arg] = ("num", _default_value(defaults[a.arg]))
                     except Untranslatable:
@@ -612,15 +778,20 @@ def generate_ast(repo, specs, header=None, id_base=0) -> dict:
             if ids is not None:
                 idc = f"/- ids of `{sp['name']}`: scalars {ids.scalar}, vectors {ids.vec} -/\n"
             where = sp["file"] if sp.get("root") is None else f"<{sp['root']}>/{sp['file']}"
-            doc = f"/-- generated from `{where}` :: `{sp['path']}`" + (f" (final `return {sp['sub_return']}`)" if sp.get("sub_return") else "") + (f" (the lambda stored in `{sp['sub_lambda']}`)" if sp.get("sub_lambda") else "") + " -/\n"
+            doc = f"/-- generated from `{where}` :: `{sp['path']}`" + (f" (final `return {sp['sub_return']}`)" if sp.get("sub_return") else "") + (f" (the lambda stored in `{sp['sub_lambda']}`)" if sp.get("sub_lambda") else "") + ("; argument checks that raise otherwise: " + ", ".join(f"`not ({g})`" for g in tr.guards) if tr.guards else "") + " -/\n"
             binders = "".join(f"(self_{f} : Expr N) " for f in (sp.get("field_params") or [])) + "".join(f"(self_{f} : List (Expr N)) " for f in tr.vec_field_params) + (sp.get("binders", "") + " " if sp.get("binders") else "")
             if tr.dim:
                 binders = f"({tr.dim} : Nat) " + binders
+            binders += "".join(f"(self_{f} : List (List (Expr N))) " for f in tr.mat_field_params)
             if vec_args:
                 binders += "(" + " ".join(vec_args) + " : List (Expr N)) "
+            if mat_args:
+                binders += "(" + " ".join(mat_args) + " : List (List (Expr N))) "
+            for a, ln in tuple_args.items():
+                binders += "(" + " ".join(f"{a}_{i}" for i in range(ln)) + " : Expr N) "
             if argnames:
                 binders += "(" + " ".join(argnames) + " : Expr N)"
-            ty = lambda r: "List (Expr N)" if isinstance(r, VecCode) else "Expr N"
+            ty = lambda r: "List (List (Expr N))" if isinstance(r, MatCode) else "List (Expr N)" if isinstance(r, VecCode) else "Expr N"
             if len(ret) == 1:
                 out.append(f"{idc}{doc}def {sp['name']}.ast {binders} : {ty(ret[0])} :=\n{tr.metas()}  {tr.wrap(ret[0])}\n")
             else:
